@@ -52,6 +52,8 @@ if ok:
             print(" ", p, "rc", r.returncode, lines[:2], (replay or "")[:300])
     finally:
         subprocess.check_call(["git", "-C", "/repo", "checkout", "--", "."])
+        # the evidence files written while the patch was applied describe a modified tree: put the committed ones back
+        subprocess.run(["git", "-C", V, "checkout", "--", "evidence"], capture_output=True)
         for f in os.listdir(f"{V}/replays"):
             if f.endswith(".json"):
                 os.remove(os.path.join(V, "replays", f))
